@@ -231,6 +231,24 @@ pub fn limits() -> Vec<Limit> {
             ),
             expect: if n + 1 <= 256 { p(&[&(n + 1).to_string()]) } else { Expect::Reject },
         });
+        // the same total reached only in an intermediate function: two sibling closures capture
+        // disjoint sets of variables of two enclosing functions, so no single closure is over the
+        // limit but the function between them has to pass all n+1 through
+        let k1 = 130;
+        let k2 = n + 1 - k1;
+        let suma: String = (0..k1).map(|i| format!("a{}", i)).collect::<Vec<_>>().join("+");
+        let sumb: String = (0..k2).map(|i| format!("b{}", i)).collect::<Vec<_>>().join("+");
+        v.push(Limit {
+            name: format!("upvalues_through_intermediate_{}", n + 1),
+            source: format!(
+                "fn o1() {{ {} fn o2() {{ {} fn mid() {{ fn in1() {{ return {}; }} fn in2() {{ return {}; }} return in1() + in2(); }} return mid(); }} return o2(); }}\nprint(o1());",
+                (0..k1).map(|i| format!("var a{} = 1;", i)).collect::<String>(),
+                (0..k2).map(|i| format!("var b{} = 1;", i)).collect::<String>(),
+                suma,
+                sumb
+            ),
+            expect: if n + 1 <= 256 { p(&[&(n + 1).to_string()]) } else { Expect::Reject },
+        });
     }
     // constants per chunk: 65536 distinct number literals fit (indices 0..65535)
     for n in [65535usize, 65536, 65537] {
